@@ -14,6 +14,12 @@ include!(concat!(env!("PRECIS_VERIF_DIR"), "/build/gen/oracle.rs"));
 pub mod stubs {
     include!(concat!(env!("PRECIS_VERIF_DIR"), "/kani/stubs.rs"));
 }
+pub mod c10 {
+    include!(concat!(env!("PRECIS_VERIF_DIR"), "/kani/bodies/c10.rs"));
+}
+pub mod c11 {
+    include!(concat!(env!("PRECIS_VERIF_DIR"), "/kani/bodies/c11.rs"));
+}
 pub mod c12 {
     include!(concat!(env!("PRECIS_VERIF_DIR"), "/kani/bodies/c12.rs"));
 }
